@@ -46,9 +46,14 @@ func getTypeInfo(t reflect.Type) *theTypeInfo {
 		sort.Sort(sortableFieldInfos(typeInfo.Fields))
 	}
 
-	// Publish
+	// Publish, unless another goroutine did meanwhile: cycle detection compares
+	// *theTypeInfo pointers, so every caller must see the same one for a type
 	typeInfosMutex.Lock()
-	typeInfos[t] = typeInfo
+	if published, exists := typeInfos[t]; exists {
+		typeInfo = published
+	} else {
+		typeInfos[t] = typeInfo
+	}
 	typeInfosMutex.Unlock()
 	return typeInfo
 }
